@@ -17,12 +17,14 @@ def places_for(tier):
             return ["cap0", "dirtyhole"] if tier == "quick" else ["cap0", "dirtyhole", "ba-hole", "al64"]
         if form == "xobj-same":
             return ["cap0", "ba-cap0"]
-        if form in ("xobj-other", "xobj-ctx", "xobj-kind"):
+        if form in ("xobj-other", "xobj-ctx", "xobj-kind", "xobj-view"):
             return ["cap0", "dirtyhole"]
-        if form == "xobj-nested":
+        if form in ("xobj-nested", "xobj-nested-view"):
             return ["dirtyhole", "cap0"]
         if form == "xobj-slack":
             return ["dirtybig", "cap0"]
+        if form in ("ref-same", "ref-foreign"):
+            return ["cap0", "ba-cap0"]
         if form == "cap":
             return ["cap0", "dirtybig", "dirtybig2", "default"]
         return ["ctx"]
